@@ -457,6 +457,60 @@ func runC09(w *World, r *Report) {
 			r.Info("C09.handler-state-own-run-only", "no callback handler method of the module keeps state of its own", token.NoPos, "nothing to decide")
 		}
 	}
+	r.Rule("C09.result-slice-is-own", "a slice a bundled component builds by appending what other parties hand it (the chat template joining the messages of its entries) starts from a slice of its own: the first operand of every append in components/prompt goes back to make / a literal / nil, never to a value returned by another component or received as an argument — a MessagesPlaceholder returns the caller's history slice itself, and appending to it writes into spare capacity shared by every run that was given that history", 1)
+	{
+		n := 0
+		for _, fn := range w.RepoFuncs("components/prompt") {
+			k := 0
+			instrs(fn, func(in ssa.Instruction) {
+				c, ok := in.(*ssa.Call)
+				if !ok || !isBuiltin(c, "append") {
+					return
+				}
+				k++
+				n++
+				bad := ""
+				seen := map[ssa.Value]bool{}
+				var walk func(v ssa.Value, d int)
+				walk = func(v ssa.Value, d int) {
+					if v == nil || d > 12 || seen[v] || bad != "" {
+						return
+					}
+					seen[v] = true
+					switch x := v.(type) {
+					case *ssa.Phi:
+						for _, e := range x.Edges {
+							walk(e, d+1)
+						}
+					case *ssa.Call:
+						if isBuiltin(x, "append") {
+							walk(x.Call.Args[0], d+1)
+						} else {
+							bad = "the result of " + valText(x)
+						}
+					case *ssa.MakeSlice, *ssa.Const, *ssa.Alloc:
+					case *ssa.Slice:
+						walk(x.X, d+1)
+					case *ssa.UnOp:
+						if a, isA := x.X.(*ssa.Alloc); isA && x.Op == token.MUL {
+							for _, st := range storesToCell(fn, a) {
+								walk(st.Val, d+1)
+							}
+						} else {
+							bad = valText(x)
+						}
+					default:
+						bad = valText(v)
+					}
+				}
+				walk(c.Call.Args[0], 0)
+				r.Check(bad == "", "C09.result-slice-is-own", fmt.Sprintf("%s: append #%d", w.fname(fn), k), c.Pos(), "starts from make / a literal / nil", "appends to "+bad+": with a MessagesPlaceholder as first entry that is the caller's own history slice — two concurrent runs sharing one read-only history (with spare capacity) overwrite each other's prompt tail, run A's model sees 'question of B'")
+			})
+		}
+		if n == 0 {
+			r.Info("C09.result-slice-is-own", "no append in components/prompt", token.NoPos, "nothing to decide")
+		}
+	}
 	r.Rule("C09.reslice-append", "no append onto a re-slice (x[:k]) of a parameter slice or of a slice held in a field of a shared object, except the owner's delete-in-place stored back into the same field", 1)
 	ruleResliceAppend(w, r, "C09.reslice-append", "compose", "schema", "internal", "flow", "callbacks", "components", "utils")
 
